@@ -2,8 +2,11 @@
 `JitterBuffer::{new, reset, push, pop, awaiting_next, is_empty, last_ssrc}` with `get_first_seq` / `is_newer`.
 The `BTreeMap<u16, BufferedSample>` is a key-ascending association list. Time is abstracted to one Boolean per
 `pop`: `aged` = "the head sample is at least `max_delay` old"; the harness runs the real buffer with `min_delay = 0`
-and `max_delay ∈ {0, 1 h}`, for which `aged` is constantly true / false. Import-free (the driver links it). -/
+and `max_delay ∈ {0, 1 h}`, for which `aged` is constantly true / false. Imports only the generated constants (`MAX_SEQ_GAP`, `AUDIO_TS_JUMP_SECS`, `VIDEO_TS_JUMP_SECS` are regenerated from the
+source on every run). -/
+import RtcModel.Generated.Consts
 namespace RtcModel.Jitter
+open RtcModel.Generated
 
 structure Smp where
   seq : Option Nat      -- `sequence_number` (u16)
@@ -24,7 +27,7 @@ structure St where
 
 def init (cap : Nat) : St := { cap := cap }
 
-def maxSeqGap : Nat := 64
+def maxSeqGap : Nat := c07JitterMaxSeqGap
 def halfU32 : Nat := 2147483647        -- u32::MAX / 2
 
 /-- `is_newer(seq, last)` -/
@@ -54,7 +57,7 @@ def St.afterSeq (s : St) (seq : Nat) (x : Smp) (clock : Nat) : St :=
   match s.lastTs with
   | none => s.store seq x
   | some lts =>
-    let maxJump := if x.video then 450000 else min (clock * 2) 4294967295
+    let maxJump := if x.video then 90000 * c07JitterVideoTsJumpSecs else min (clock * c07JitterAudioTsJumpSecs) 4294967295
     let d := (x.ts + 4294967296 - lts) % 4294967296
     if d > maxJump && d < halfU32 then s.restart seq x
     else if d > halfU32 && (lts + 4294967296 - x.ts) % 4294967296 > maxJump then s.restart seq x
